@@ -113,6 +113,36 @@ theorem newPairs_eq (uP uS : List Nat) (hP : uP.Nodup) (hS : uS.Nodup) (l : List
     simp only [newPairs, newIndex_mkTable uP hP q.1 hq.1, newIndex_mkTable uS hS q.2 hq.2,
       ih (fun x hx => h x (List.mem_cons_of_mem _ hx)), List.map_cons]
 
+/-! ## collapser dict -/
+
+theorem lookup_upsert_self {α : Type} (d : List (String × α)) (k : String) (v : α) :
+    (upsert d k v).lookup k = some v := by
+  induction d with
+  | nil => simp [upsert]
+  | cons e d ih =>
+    obtain ⟨k', v'⟩ := e
+    unfold upsert
+    by_cases h : k' = k
+    · simp [h]
+    · have h' : (k == k') = false := by simpa using fun e => h e.symm
+      simp [h, List.lookup, h', ih]
+
+theorem lookup_upsert_ne {α : Type} (d : List (String × α)) (k k2 : String) (v : α) (hne : k2 ≠ k) :
+    (upsert d k v).lookup k2 = d.lookup k2 := by
+  induction d with
+  | nil =>
+    have : (k2 == k) = false := by simpa using hne
+    simp [upsert, List.lookup, this]
+  | cons e d ih =>
+    obtain ⟨k', v'⟩ := e
+    unfold upsert
+    by_cases h : k' = k
+    · subst h
+      have : (k2 == k') = false := by simpa using hne
+      simp [List.lookup, this]
+    · simp only [h, if_false, List.lookup]
+      cases k2 == k' <;> simp [ih]
+
 /-! ## gather -/
 
 theorem gather_length {data : List Row} {idx : List Nat} {r : List Row}
